@@ -82,7 +82,8 @@ def real_cases(ctx, rng, nkeys, nflip):
     keys = secrets[:min(nkeys, len(secrets))] + [rng.randrange(1, N256) for _ in range(max(0, nkeys - len(secrets)))]
     msgs = [b"\x00" * 32, b"\xff" * 32]
     for i, d in enumerate(keys):
-        pk = pecc.PrivateKey(d)
+        # (how the key object would serialise its public key -- compressed or not, which network -- is irrelevant to BIP340)
+        pk = pecc.PrivateKey(d) if i % 3 else pecc.PrivateKey(d, network=["mainnet", "testnet"][i % 2], compressed=False)
         m = msgs[i] if i < len(msgs) else bytes(rng.randrange(256) for _ in range(32))
         aux = b"\x00" * 32 if i % 3 == 0 else bytes(rng.randrange(256) for _ in range(32))
         # (no hook on the library's nonce helper: the specified nonce is recomputed below from the tagged hashes)
